@@ -146,6 +146,11 @@ func familyExt(family, id string, g *Gen, blocks, maxTx int) *Scenario {
 			blocks = 18
 		}
 		return g.GovStory(id, blocks)
+	case "stakefail":
+		if blocks < 16 {
+			blocks = 16
+		}
+		return g.StakeFailStory(id, blocks)
 	case "govfee", "govstake":
 		if blocks < 14 {
 			blocks = 14
@@ -255,7 +260,7 @@ func familyKindsExt(family string) []string {
 		return AllegKinds
 	case "eth", "eth5", "erc20", "ethstory":
 		return EthKinds
-	case "stake":
+	case "stake", "stakefail":
 		return StakeKinds
 	case "gov", "govfee", "govstake":
 		return GovKinds
